@@ -37,7 +37,7 @@ Domain(kind) ==
            THEN [amount |-> {"zero", "one", "balance", "balance+1", "2^255"},
                  token  |-> {"znn", "qsr", "unknown"},
                  to     |-> {"user2", "user3"}]
-           ELSE [from |-> {"pendingToMe", "alreadyReceived", "unconfirmed", "addressedToOther", "unknown"},
+           ELSE [from |-> {"pendingToMe", "pendingToMeZeroAmount", "alreadyReceived", "alreadyReceivedZeroAmount", "unconfirmed", "addressedToOther", "unknown"},
                  dataOnReceive |-> {"none", "some"}])
 
 Original(kind) ==
@@ -60,7 +60,7 @@ FieldsValid(kind, b) ==
        /\ b.descendants = "none"                                               \* user blocks carry no descendants
        /\ (kind = "userSend" => b.amount \in {"zero", "one", "balance"}                      \* AmountRange, Funds ("balance" = what the account holds of the block's token)
                                /\ (b.token = "unknown" => b.amount \in {"zero", "balance"}))   \* nothing is held of an unknown token
-       /\ (kind = "userReceive" => b.from = "pendingToMe")                     \* confirmed, unreceived, addressed to the receiver
+       /\ (kind = "userReceive" => b.from \in {"pendingToMe", "pendingToMeZeroAmount"})   \* confirmed, unreceived, addressed to the receiver - whatever it carries
 
 \* which fields the hash covers (all of them here: the uncovered ones are C13's subject)
 HashOK(level, changed) == changed = {} \/ level # "raw"
